@@ -100,6 +100,9 @@ type Opts struct {
 	AlwaysAssigned bool
 	// RepeatStops allows a stop to occur twice in a trip's route.
 	RepeatStops bool
+	// ExactFeeds > 0 fixes the number of feeds; RouteLen > 0 fixes the initial number of stops of every trip
+	// (stop ids S000, S001, ...) and makes the vehicle advance several stops per feed. Size-threshold sweeps.
+	ExactFeeds, RouteLen int
 }
 
 var Stops = []string{"A", "B", "C", "D", "E", "F"}
@@ -115,6 +118,9 @@ type tripPlan struct {
 // Gen draws a history.
 func Gen(r *core.Rand, o Opts) *History {
 	nF := 1 + r.Intn(o.MaxFeeds)
+	if o.ExactFeeds > 0 {
+		nF = o.ExactFeeds
+	}
 	nT := 1 + r.Intn(o.MaxTrips)
 	var plans []*tripPlan
 	usedKey := map[string]bool{}
@@ -142,10 +148,16 @@ func Gen(r *core.Rand, o Opts) *History {
 		for i := 0; i < n && i < len(perm); i++ {
 			p.routeStops = append(p.routeStops, Stops[perm[i]])
 		}
+		if o.RouteLen > 0 {
+			p.routeStops = nil
+			for i := 0; i < o.RouteLen; i++ {
+				p.routeStops = append(p.routeStops, fmt.Sprintf("S%03d", i))
+			}
+		}
 		if o.RepeatStops && r.Chance(1, 5) && len(p.routeStops) >= 2 {
 			p.routeStops = append(p.routeStops, p.routeStops[r.Intn(len(p.routeStops)-1)])
 		}
-		if !o.AlwaysAssigned && r.Chance(1, 3) {
+		if !o.AlwaysAssigned && (r.Chance(1, 3) || o.ExactFeeds > 100) {
 			p.assignedFrom = r.Intn(nF + 1) // possibly never
 		}
 		plans = append(plans, p)
@@ -166,6 +178,9 @@ func Gen(r *core.Rand, o Opts) *History {
 			case 0, 1, 2, 3: // advance: list shrinks from the front
 				if p.pos < len(p.routeStops) {
 					p.pos += r.Intn(2)
+					if o.RouteLen > 0 {
+						p.pos += r.Intn(4)
+					}
 				}
 			case 4: // grows at the back
 				p.routeStops = append(p.routeStops, core.Pick(r, Stops))
